@@ -277,6 +277,9 @@ pub enum DMsg {
     AskFirst(RpcReplyPort<u64>, Vec<u8>),
     #[rpc]
     AskMid { x: u8, reply: RpcReplyPort<Vec<u8>>, y: String },
+    /// an rpc whose only field is the reply port: its wire form carries no argument bytes at all
+    #[rpc]
+    Ping(RpcReplyPort<u8>),
 }
 
 fn dmsg_desc(m: &DMsg) -> String {
@@ -289,6 +292,7 @@ fn dmsg_desc(m: &DMsg) -> String {
         DMsg::AskLast(x, _) => format!("AskLast({x})"),
         DMsg::AskFirst(_, v) => format!("AskFirst({v:?})"),
         DMsg::AskMid { x, y, .. } => format!("AskMid({x},{y:?})"),
+        DMsg::Ping(_) => "Ping".to_string(),
     }
 }
 
@@ -387,7 +391,7 @@ fn hostile_meta(p: &mut Prng) -> Option<Vec<u8>> {
 }
 
 fn hostile(p: &mut Prng) -> (SerializedMessage, String) {
-    let variants = ["Unit", "Tup", "Struct", "Boomy", "Wide", "AskLast", "AskFirst", "AskMid", "Nope", ""];
+    let variants = ["Unit", "Tup", "Struct", "Boomy", "Wide", "AskLast", "AskFirst", "AskMid", "Ping", "Ping", "Nope", ""];
     let variant = p.pick(&variants).to_string();
     // args: random garbage, a valid encoding truncated / extended, huge length prefixes
     let args = match p.below(6) {
@@ -422,8 +426,10 @@ fn hostile(p: &mut Prng) -> (SerializedMessage, String) {
             a
         }
     };
-    let desc = format!("variant={variant:?} args={} bytes", args.len());
-    let m = match p.below(4) {
+    let kind = p.below(4);
+    // (a Call for the port-only variant with no argument bytes is, in fact, a well-formed Ping)
+    let desc = format!("variant={variant:?} args={} bytes{}", args.len(), if variant == "Ping" && args.is_empty() && kind == 0 { " WELL-FORMED-PING" } else { "" });
+    let m = match kind {
         0 => {
             let (tx, _rx) = tokio::sync::oneshot::channel();
             SerializedMessage::Call { variant, args, reply: tx.into(), metadata: hostile_meta(p) }
@@ -565,6 +571,14 @@ pub fn run_msgs(seed: u64, tl: Option<(&tokio::runtime::Runtime, ractor::thread_
         if cell.get_status() != ActorStatus::Running {
             local_v.push(("actor-died".to_string(), format!("the {kind} actor (target {target}) is {:?} after undecodable payloads; sent: {sent:?}", cell.get_status())));
         } else {
+            // a Ping reaches the handler only when its wire form had no argument bytes (trailing bytes are a malformed payload)
+            if target == 0 {
+                let pings_ok = sent.iter().filter(|x| x.contains("WELL-FORMED-PING")).count();
+                let pings_got = got.iter().filter(|g| g.as_str() == "Ping").count();
+                if pings_got > pings_ok {
+                    local_v.push(("trailing-args-accepted".to_string(), format!("the {kind} actor handled {pings_got} Ping calls but only {pings_ok} well-formed ones (no argument bytes) were sent: a payload with trailing bytes was decoded and dispatched; sent={sent:?}")));
+                }
+            }
             // every valid message we sent is handled, in order (a hostile one may decode by luck and appear in between)
             let mut it = got.iter();
             for e in &expected {
